@@ -3,7 +3,7 @@
    encoding of a well-formed value they return the encoding of the edited value (same 'existed' flag, error exactly
    when the spec fails), so every buffer of every history is the encoding of the model state. *)
 From Coq Require Import ZArith List Bool Lia.
-From DG Require Import ProtoWireRef ProtoWireRefProofs ThriftWire ThriftWireProofs CaseFormat ThriftGeneric ThriftGenericProofs
+From DG Require Import ProtoWireRef ProtoWireRefProofs ThriftWire ThriftWireProofs ThriftCanonProofs CaseFormat ThriftGeneric ThriftGenericProofs
   ThriftEdit ThriftEditProofs ThriftEditBytes.
 Import ListNotations.
 Local Open Scope Z_scope.
@@ -194,12 +194,6 @@ Proof.
 Qed.
 
 (* ================= Path.ToRaw writes the encoding of the key the step denotes ================= *)
-Lemma enc_int_to_s n z : enc_int n (to_s (8 * Z.of_nat n) z) = enc_int n z.
-Proof.
-  unfold enc_int. f_equal. f_equal. rewrite pow256_pow2. unfold to_s.
-  rewrite Zminus_mod_idemp_l. f_equal. lia.
-Qed.
-
 Lemma enc_int_to_s8 z : enc_int 1 (to_s 8 z) = enc_int 1 z.  Proof. exact (enc_int_to_s 1 z). Qed.
 Lemma enc_int_to_s16 z : enc_int 2 (to_s 16 z) = enc_int 2 z. Proof. exact (enc_int_to_s 2 z). Qed.
 Lemma enc_int_to_s32 z : enc_int 4 (to_s 32 z) = enc_int 4 z. Proof. exact (enc_int_to_s 4 z). Qed.
@@ -219,10 +213,45 @@ Proof.
   - intros _ Hb. rewrite (Hb b eq_refl). reflexivity.
 Qed.
 
+Lemma bytes_okb_ok b : bytes_okb b = true -> bytes_ok b.
+Proof.
+  unfold bytes_okb, bytes_ok. rewrite forallb_forall, Forall_forall. intros H x Hx. specialize (H x Hx).
+  unfold byte_okb in H. apply andb_true_iff in H. destruct H as [H1 H2]. apply Z.leb_le in H1. apply Z.ltb_lt in H2.
+  unfold byte_ok. lia.
+Qed.
+
+Lemma raw_key_judge_true ko b : raw_key_judge ko b = true -> bytes_ok b /\ exists kv, ko = Some kv.
+Proof.
+  unfold raw_key_judge. intros H. apply andb_true_iff in H. destruct H as [H1 H2]. split; [apply bytes_okb_ok; exact H1|].
+  destruct ko as [kv|]; [exists kv; reflexivity|discriminate H2].
+Qed.
+
+(* explicit unfolding (by computation on raw_key_ok only): the proofs below never let the unifier look into key_of_step *)
+Lemma raw_key_ok_unfold b kt vt es :
+  raw_key_ok (PBinKey b) (VMap kt vt es) = raw_key_judge (key_of_step kt (PBinKey b)) b.
+Proof. reflexivity. Qed.
+
+Lemma key_of_step_bin_eq kt b : key_of_step kt (PBinKey b) =
+  match skip_go kt b with
+  | Some [] => match decode (S (length b)) kt b with Some (kv, []) => Some kv | _ => None end
+  | _ => None
+  end.
+Proof. reflexivity. Qed.
+
+(* a raw key that decodes IS the encoding of the key it denotes (decode_canonical) *)
+Lemma key_of_step_bin_canon kt b kv : bytes_ok b -> key_of_step kt (PBinKey b) = Some kv -> encode kv = b.
+Proof.
+  intros B H. rewrite key_of_step_bin_eq in H. revert H. generalize (skip_go kt b). intros sk H.
+  destruct sk as [[|? ?]|]; try discriminate H.
+  destruct (decode (S (length b)) kt b) as [[kv' [|? ?]]|] eqn:D; try discriminate H. inversion H; subst kv'.
+  destruct (decode_canonical _ _ _ _ _ B D) as [E _]. rewrite app_nil_r in E. symmetry. exact E.
+Qed.
+
 Lemma raw_key_ok_map s kt vt es kv : raw_key_ok s (VMap kt vt es) = true -> key_of_step kt s = Some kv ->
   forall b, s = PBinKey b -> encode kv = b.
 Proof.
-  intros H Hk b ->. cbn [raw_key_ok] in H. rewrite Hk in H. apply bytes_eqb_eq. exact H.
+  intros H Hk b ->. rewrite raw_key_ok_unfold in H. destruct (raw_key_judge_true _ _ H) as [B _].
+  exact (key_of_step_bin_canon kt b kv B Hk).
 Qed.
 
 (* ================= setNotFound + replace on an absent LAST step ================= *)
@@ -264,13 +293,45 @@ Qed.
 Lemma zlen_bound {A} (l : list A) : zlen l < 2 ^ 31 -> 0 <= zlen l < 2 ^ 31.
 Proof. pose proof (zlen_nonneg l). lia. Qed.
 
+(* NOTE on proof style: ThriftEdit.key_of_step walks a raw key with skip_go (depth fuel 1023) before decoding it. A kernel
+   conversion that has [key_of_step kt (PBinKey b)] (concrete constructor) as the scrutinee of a match does not terminate in
+   practice, so every lemma below treats maps with the step as a VARIABLE and goes through equations proved by
+   [destruct s; reflexivity] (insert_at_map_eq, remove_at_map_eq, raw_key_ok_unfold). *)
+Lemma insert_at_map_eq front s x kt vt es : insert_at front s x (VMap kt vt es) =
+  match key_pred kt s with
+  | None => None
+  | Some _ => match key_of_step kt s with Some kv => Some (VMap kt vt (ins front (kv, x) es)) | None => None end
+  end.
+Proof. destruct s; reflexivity. Qed.
+
+Lemma insert_base_map s x kt vt es kv : good (VMap kt vt es) -> to_raw s kt = Some (encode kv) ->
+  forall A B, exists bs' nb,
+    set_not_found T_MAP (zlen A + 6) s (A ++ encode (VMap kt vt es) ++ B) (encode x) (type_of x) = Some (bs', nb) /\
+    replace bs' (zlen A + 6) (zlen A + 6) nb = A ++ encode (VMap kt vt ((kv, x) :: es)) ++ B.
+Proof.
+  intros Hg Hraw A B. rewrite snf_map.
+  replace (zlen A + 6 - 6) with (zlen A) by lia. rewrite to_nat_zlen. cbn [encode app]. rewrite nth_app_len. rewrite Hraw.
+  eexists; eexists; split; [reflexivity|].
+  destruct (good_map_inv _ _ _ Hg) as [Hlen _].
+  change (A ++ kt :: vt :: (enc_int 4 (zlen es) ++ encP es) ++ B) with (A ++ (kt :: vt :: enc_int 4 (zlen es) ++ encP es) ++ B).
+  rewrite insert_pair by (apply zlen_bound; exact Hlen).
+  cbn [flat_map fst snd]. rewrite zlen_cons, (Z.add_comm 1). rewrite <- !app_assoc. cbn [app]. rewrite <- ?app_assoc. reflexivity.
+Qed.
+
 Lemma insert_base s x v v' : good v -> insert_at true s x v = Some v' -> raw_key_ok s v = true ->
   forall A B, exists bs' nb,
     set_not_found (type_of v) (zlen A + nf_start (type_of v)) s (A ++ encode v ++ B) (encode x) (type_of x) = Some (bs', nb) /\
     replace bs' (zlen A + nf_start (type_of v)) (zlen A + nf_start (type_of v)) nb = A ++ encode v' ++ B.
 Proof.
   intros Hg Hi Hraw A B.
-  destruct s as [id|i|ks|n|b]; destruct v as [?|?|?|?|?|?|?|fs|kt vt es|et es|et es]; cbn [insert_at] in Hi; try discriminate Hi.
+  destruct v as [?|?|?|?|?|?|?|fs|kt vt es|et es|et es].
+  9: { (* map: the step stays a variable *)
+    rewrite insert_at_map_eq in Hi.
+    destruct (key_pred kt s) as [pr|] eqn:Ep; [|discriminate Hi].
+    destruct (key_of_step kt s) as [kv|] eqn:Ek; [|discriminate Hi]. inversion Hi; subst v'.
+    cbn [type_of ins]. change (nf_start T_MAP) with 6.
+    apply insert_base_map; [exact Hg|]. apply to_raw_key; [exact Ek|]. eapply raw_key_ok_map; eassumption. }
+  all: destruct s as [id|i|ks|n|b]; cbn [insert_at] in Hi; try discriminate Hi.
   - (* struct *)
     inversion Hi; subst v'. cbn [type_of ins]. rewrite snf_struct. cbn [to_raw].
     eexists; eexists; split; [reflexivity|]. change (nf_start T_STRUCT) with 0.
@@ -285,58 +346,35 @@ Proof.
     eexists; eexists; split; [reflexivity|]. change (nf_start T_LIST) with 5.
     destruct (good_list_inv _ _ Hg) as [Hlen _]. cbn [encode].
     rewrite insert_elems by (apply zlen_bound; exact Hlen). rewrite zlen_cons, (Z.add_comm 1). reflexivity.
-  - (* map, string key *)
-    destruct (key_pred kt (PStrKey ks)) as [pr|] eqn:Ep; [|discriminate Hi].
-    destruct (key_of_step kt (PStrKey ks)) as [kv|] eqn:Ek; [|discriminate Hi]. inversion Hi; subst v'.
-    cbn [type_of ins]. rewrite snf_map. change (nf_start T_MAP) with 6.
-    replace (zlen A + 6 - 6) with (zlen A) by lia. rewrite to_nat_zlen. cbn [encode app]. rewrite nth_app_len.
-    rewrite (to_raw_key _ _ _ Ek (raw_key_ok_map _ _ _ _ _ Hraw Ek)).
-    eexists; eexists; split; [reflexivity|].
-    destruct (good_map_inv _ _ _ Hg) as [Hlen _].
-    change (A ++ kt :: vt :: (enc_int 4 (zlen es) ++ encP es) ++ B) with (A ++ (kt :: vt :: enc_int 4 (zlen es) ++ encP es) ++ B).
-    rewrite insert_pair by (apply zlen_bound; exact Hlen).
-    cbn [flat_map fst snd]. rewrite zlen_cons, (Z.add_comm 1). rewrite <- !app_assoc. cbn [app]. rewrite <- ?app_assoc. reflexivity.
-  - (* map, integer key *)
-    destruct (key_pred kt (PIntKey n)) as [pr|] eqn:Ep; [|discriminate Hi].
-    destruct (key_of_step kt (PIntKey n)) as [kv|] eqn:Ek; [|discriminate Hi]. inversion Hi; subst v'.
-    cbn [type_of ins]. rewrite snf_map. change (nf_start T_MAP) with 6.
-    replace (zlen A + 6 - 6) with (zlen A) by lia. rewrite to_nat_zlen. cbn [encode app]. rewrite nth_app_len.
-    rewrite (to_raw_key _ _ _ Ek (raw_key_ok_map _ _ _ _ _ Hraw Ek)).
-    eexists; eexists; split; [reflexivity|].
-    destruct (good_map_inv _ _ _ Hg) as [Hlen _].
-    change (A ++ kt :: vt :: (enc_int 4 (zlen es) ++ encP es) ++ B) with (A ++ (kt :: vt :: enc_int 4 (zlen es) ++ encP es) ++ B).
-    rewrite insert_pair by (apply zlen_bound; exact Hlen).
-    cbn [flat_map fst snd]. rewrite zlen_cons, (Z.add_comm 1). rewrite <- !app_assoc. cbn [app]. rewrite <- ?app_assoc. reflexivity.
-  - (* map, raw key *)
-    destruct (key_pred kt (PBinKey b)) as [pr|] eqn:Ep; [|discriminate Hi].
-    destruct (key_of_step kt (PBinKey b)) as [kv|] eqn:Ek; [|discriminate Hi]. inversion Hi; subst v'.
-    cbn [type_of ins]. rewrite snf_map. change (nf_start T_MAP) with 6.
-    replace (zlen A + 6 - 6) with (zlen A) by lia. rewrite to_nat_zlen. cbn [encode app]. rewrite nth_app_len.
-    rewrite (to_raw_key _ _ _ Ek (raw_key_ok_map _ _ _ _ _ Hraw Ek)).
-    eexists; eexists; split; [reflexivity|].
-    destruct (good_map_inv _ _ _ Hg) as [Hlen _].
-    change (A ++ kt :: vt :: (enc_int 4 (zlen es) ++ encP es) ++ B) with (A ++ (kt :: vt :: enc_int 4 (zlen es) ++ encP es) ++ B).
-    rewrite insert_pair by (apply zlen_bound; exact Hlen).
-    cbn [flat_map fst snd]. rewrite zlen_cons, (Z.add_comm 1). rewrite <- !app_assoc. cbn [app]. rewrite <- ?app_assoc. reflexivity.
 Qed.
 
 Lemma vlookup1_err v s : vlookup1 v s = LErr -> lookup1 v s = LErr.
 Proof. rewrite <- lsub_lookup1. destruct (lookup1 v s); cbn [lsub]; intros H; try discriminate H; reflexivity. Qed.
 
+Lemma key_of_step_some kt vt es s pr : key_pred kt s = Some pr -> raw_key_ok s (VMap kt vt es) = true ->
+  exists kv, key_of_step kt s = Some kv.
+Proof.
+  destruct s as [id|i|ks|n|b]; intros Hp Hraw; try discriminate Hp.
+  - cbn [key_pred] in Hp. cbn [key_of_step]. destruct (kt =? T_STRING); [eexists; reflexivity|discriminate Hp].
+  - cbn [key_pred] in Hp. cbn [key_of_step]. destruct (is_int_type kt) eqn:Ei; [|discriminate Hp]. unfold is_int_type in Ei.
+    destruct (kt =? T_BYTE); [eexists; reflexivity|]. destruct (kt =? T_I16); [eexists; reflexivity|].
+    destruct (kt =? T_I32); [eexists; reflexivity|]. destruct (kt =? T_I64); [eexists; reflexivity|]. discriminate Ei.
+  - rewrite raw_key_ok_unfold in Hraw. destruct (raw_key_judge_true _ _ Hraw) as [_ [kv Hk]].
+    exists kv. exact Hk.
+Qed.
+
 (* an absent last step that fits the container always has an insertion (given a decodable raw key) *)
 Lemma insert_at_some s x v : lookup1 v s = LNotFound -> raw_key_ok s v = true -> exists v', insert_at true s x v = Some v'.
 Proof.
   intros L Hraw.
-  destruct s as [id|i|ks|n|b]; destruct v as [?|?|?|?|?|?|?|fs|kt vt es|et es|et es]; try discriminate L; cbn [lookup1] in L; cbn [insert_at key_pred key_of_step].
+  destruct v as [?|?|?|?|?|?|?|fs|kt vt es|et es|et es].
+  9: { rewrite insert_at_map_eq. destruct (key_pred kt s) as [pr|] eqn:Ep.
+       - destruct (key_of_step_some _ _ _ _ _ Ep Hraw) as [kv Hk]. rewrite Hk. eexists; reflexivity.
+       - rewrite (lookup1_map_no_pred _ _ _ _ Ep) in L. discriminate L. }
+  all: destruct s as [id|i|ks|n|b]; try discriminate L; cbn [lookup1] in L; cbn [insert_at].
   - eexists; reflexivity.
   - destruct (i <? 0); [discriminate L|]. eexists; reflexivity.
   - destruct (i <? 0); [discriminate L|]. eexists; reflexivity.
-  - destruct (kt =? T_STRING); [|discriminate L]. eexists; reflexivity.
-  - destruct (is_int_type kt) eqn:Ei; [|discriminate L]. unfold is_int_type in Ei.
-    destruct (kt =? T_BYTE); [eexists; reflexivity|]. destruct (kt =? T_I16); [eexists; reflexivity|].
-    destruct (kt =? T_I32); [eexists; reflexivity|]. destruct (kt =? T_I64); [eexists; reflexivity|]. discriminate Ei.
-  - cbn [raw_key_ok key_of_step] in Hraw.
-    destruct (decode (S (length b)) kt b) as [[kv [|? ?]]|]; try discriminate Hraw. eexists; reflexivity.
 Qed.
 
 (* ================= SET: the walk and the splice against ast_set, by induction on the path ================= *)
@@ -466,8 +504,8 @@ Definition dc_elems (bs : list Z) (s : pstep) : dcres :=
     end
   | _ => DcErr None
   end.
-Lemma dc_list bs s : delete_child T_LIST bs s = dc_elems bs s. Proof. reflexivity. Qed.
-Lemma dc_set bs s : delete_child T_SET bs s = dc_elems bs s. Proof. reflexivity. Qed.
+Lemma dc_list fx bs s : delete_child fx T_LIST bs s = dc_elems bs s. Proof. reflexivity. Qed.
+Lemma dc_set fx bs s : delete_child fx T_SET bs s = dc_elems bs s. Proof. reflexivity. Qed.
 
 (* count patch (n -> n - 1) and removal of one element [el] of a container with header H *)
 Lemma remove_span A B H n mid el post pos s0 e0 :
@@ -572,7 +610,7 @@ Proof.
 Qed.
 
 (* struct: field loop *)
-Lemma dc_struct_unfold bs id : delete_child T_STRUCT bs (PField id) =
+Lemma dc_struct_unfold fx bs id : delete_child fx T_STRUCT bs (PField id) =
   match search_field (S (length bs)) id bs 0 with
   | SFound ft o rest => match skip_go ft rest with Some r => DcFound None (o - 3) (o + (zlen rest - zlen r)) | None => DcErr None end
   | SNotFound => DcNotFound
@@ -583,11 +621,11 @@ Proof. reflexivity. Qed.
 Lemma gsplit_in {K} (pr : K -> bool) l pre e post : gsplit pr l pre e post -> In e l.
 Proof. intros [E _]. subst l. apply in_or_app. right. left. reflexivity. Qed.
 
-Lemma dc_struct_spec fs id : good (VStruct fs) ->
+Lemma dc_struct_spec fx fs id : good (VStruct fs) ->
   match gdel (fun i => i =? id) fs with
-  | Some fs' => exists s0 e0, delete_child T_STRUCT (encode (VStruct fs)) (PField id) = DcFound None s0 e0 /\
+  | Some fs' => exists s0 e0, delete_child fx T_STRUCT (encode (VStruct fs)) (PField id) = DcFound None s0 e0 /\
       forall A B, replace (A ++ encode (VStruct fs) ++ B) (zlen A + s0) (zlen A + e0) [] = A ++ encode (VStruct fs') ++ B
-  | None => delete_child T_STRUCT (encode (VStruct fs)) (PField id) = DcNotFound
+  | None => delete_child fx T_STRUCT (encode (VStruct fs)) (PField id) = DcNotFound
   end.
 Proof.
   intros Hg. pose proof (gdel_spec (fun i => i =? id) fs) as HS.
@@ -614,11 +652,11 @@ Proof.
 Qed.
 
 (* map: raw key loop *)
-Lemma dc_map_unfold kt vt r s : delete_child T_MAP (kt :: vt :: r) s =
+Lemma dc_map_unfold fx kt vt r s : delete_child fx T_MAP (kt :: vt :: r) s =
   match skip_count r with
   | None => DcErr None
   | Some (sz, _) =>
-    match to_raw s kt with
+    match map_key_raw fx s kt with
     | None => DcErr None
     | Some raw =>
       match search_map (PBinKey raw) (kt :: vt :: r) with
@@ -634,11 +672,11 @@ Lemma dc_map_unfold kt vt r s : delete_child T_MAP (kt :: vt :: r) s =
   end.
 Proof. reflexivity. Qed.
 
-Lemma dc_map_spec kt vt es s kv : good (VMap kt vt es) -> to_raw s kt = Some (encode kv) ->
+Lemma dc_map_spec fx kt vt es s kv : good (VMap kt vt es) -> map_key_raw fx s kt = Some (encode kv) ->
   match gdel (bin_key_is (encode kv)) es with
-  | Some es' => exists patch s0 e0, delete_child T_MAP (encode (VMap kt vt es)) s = DcFound patch s0 e0 /\
+  | Some es' => exists patch s0 e0, delete_child fx T_MAP (encode (VMap kt vt es)) s = DcFound patch s0 e0 /\
       forall A B, replace (apply_patch (A ++ encode (VMap kt vt es) ++ B) (zlen A) patch) (zlen A + s0) (zlen A + e0) [] = A ++ encode (VMap kt vt es') ++ B
-  | None => delete_child T_MAP (encode (VMap kt vt es)) s = DcNotFound
+  | None => delete_child fx T_MAP (encode (VMap kt vt es)) s = DcNotFound
   end.
 Proof.
   intros Hg Hraw. pose proof (gdel_spec (bin_key_is (encode kv)) es) as HS.
@@ -663,59 +701,73 @@ Proof.
   - rewrite (find_key_none _ _ HS) in H1. cbn [sres_matches] in H1. rewrite H1. reflexivity.
 Qed.
 
-Lemma to_raw_none kt vt es s : key_of_step kt s = None -> unset_last_ok s (VMap kt vt es) = true -> to_raw s kt = None.
+Lemma unset_last_ok_bin fx b kt vt es : unset_last_ok fx (PBinKey b) (VMap kt vt es) = raw_key_ok (PBinKey b) (VMap kt vt es).
+Proof. reflexivity. Qed.
+
+(* no key for the step (the spec's error): deleteChild finds no raw bytes to compare, with the kind check or without it *)
+Lemma map_key_raw_none fx kt vt es s : key_of_step kt s = None -> unset_last_ok fx s (VMap kt vt es) = true -> map_key_raw fx s kt = None.
 Proof.
-  destruct s as [id|i|ks|n|b]; cbn [unset_last_ok key_of_step to_raw raw_key_ok]; intros Hk Hu; try discriminate Hu; try reflexivity.
-  - rewrite Hu in Hk. discriminate Hk.
-  - destruct (kt =? T_BYTE); [discriminate Hk|]. destruct (kt =? T_I16); [discriminate Hk|].
-    destruct (kt =? T_I32); [discriminate Hk|]. destruct (kt =? T_I64); [discriminate Hk|]. reflexivity.
-  - rewrite Hk in Hu. discriminate Hu.
+  unfold map_key_raw. destruct s as [id|i|ks|n|b]; intros Hk Hu.
+  - cbn [unset_last_ok] in Hu. subst fx. reflexivity.
+  - destruct fx; reflexivity.
+  - cbn [unset_last_ok] in Hu. cbn [key_of_step] in Hk. cbn [key_kind_ok to_raw].
+    destruct (kt =? T_STRING); [discriminate Hk|]. rewrite orb_false_r in Hu. subst fx. reflexivity.
+  - cbn [key_of_step] in Hk. cbn [to_raw].
+    destruct (kt =? T_BYTE); [discriminate Hk|]. destruct (kt =? T_I16); [discriminate Hk|].
+    destruct (kt =? T_I32); [discriminate Hk|]. destruct (kt =? T_I64); [discriminate Hk|].
+    destruct (fx && negb (key_kind_ok (PIntKey n) kt)); reflexivity.
+  - rewrite unset_last_ok_bin, raw_key_ok_unfold in Hu. destruct (raw_key_judge_true _ _ Hu) as [_ [kv Hk']].
+    rewrite Hk in Hk'. discriminate Hk'.
 Qed.
 
-Lemma unset_raw_key kt vt es s kv : unset_last_ok s (VMap kt vt es) = true -> key_of_step kt s = Some kv ->
-  to_raw s kt = Some (encode kv).
+(* a step that denotes a key is of the map's key kind *)
+Lemma key_of_step_kind kt s kv : key_of_step kt s = Some kv -> key_kind_ok s kt = true.
 Proof.
-  intros Hu Hk. apply to_raw_key; [exact Hk|]. intros b ->. cbn [unset_last_ok] in Hu.
-  eapply raw_key_ok_map; [exact Hu|exact Hk|reflexivity].
+  destruct s as [id|i|ks|n|b]; intros Hk; try discriminate Hk; cbn [key_kind_ok].
+  - cbn [key_of_step] in Hk. destruct (kt =? T_STRING); [reflexivity|discriminate Hk].
+  - cbn [key_of_step] in Hk. unfold is_int_type.
+    destruct (kt =? T_BYTE); [reflexivity|]. destruct (kt =? T_I16); [reflexivity|].
+    destruct (kt =? T_I32); [reflexivity|]. destruct (kt =? T_I64); [reflexivity|]. discriminate Hk.
+  - reflexivity.
 Qed.
+
+Lemma unset_raw_key fx kt vt es s kv : unset_last_ok fx s (VMap kt vt es) = true -> key_of_step kt s = Some kv ->
+  map_key_raw fx s kt = Some (encode kv).
+Proof.
+  intros Hu Hk. unfold map_key_raw. rewrite (key_of_step_kind _ _ _ Hk). rewrite andb_false_r.
+  apply to_raw_key; [exact Hk|]. intros b ->. rewrite unset_last_ok_bin in Hu.
+  exact (raw_key_ok_map (PBinKey b) kt vt es kv Hu Hk b eq_refl).
+Qed.
+
+Lemma remove_at_map_eq s kt vt es : remove_at s (VMap kt vt es) =
+  match key_of_step kt s with
+  | None => DErr
+  | Some kv => match del_key (bin_key_is (encode kv)) es with Some es' => DOk (VMap kt vt es') true | None => DOk (VMap kt vt es) false end
+  end.
+Proof. destruct s; reflexivity. Qed.
 
 (* deleteChild on the encoding of the parent against the last step of ast_unset *)
-Lemma delete_child_spec s c : good c -> unset_last_ok s c = true ->
+Lemma delete_child_spec fx s c : good c -> unset_last_ok fx s c = true ->
   match remove_at s c with
-  | DOk c' true => exists patch s0 e0, delete_child (type_of c) (encode c) s = DcFound patch s0 e0 /\
+  | DOk c' true => exists patch s0 e0, delete_child fx (type_of c) (encode c) s = DcFound patch s0 e0 /\
         forall A B, replace (apply_patch (A ++ encode c ++ B) (zlen A) patch) (zlen A + s0) (zlen A + e0) [] = A ++ encode c' ++ B
-  | DOk _ false => delete_child (type_of c) (encode c) s = DcNotFound
-  | DErr => delete_child (type_of c) (encode c) s = DcErr None \/ delete_child (type_of c) (encode c) s = DcNone
+  | DOk _ false => delete_child fx (type_of c) (encode c) s = DcNotFound
+  | DErr => delete_child fx (type_of c) (encode c) s = DcErr None \/ delete_child fx (type_of c) (encode c) s = DcNone
   end.
 Proof.
   intros Hg Hu.
-  destruct c as [?|?|?|?|?|?|?|fs|kt vt es|et es|et es]; destruct s as [id|i|ks|n|b]; cbn [remove_at];
-    try (right; reflexivity); try (left; reflexivity); try discriminate Hu.
+  destruct c as [?|?|?|?|?|?|?|fs|kt vt es|et es|et es].
+  9: { (* map: the step stays a variable *)
+    rewrite remove_at_map_eq. destruct (key_of_step kt s) as [kv|] eqn:Ek.
+    - rewrite del_key_gdel. pose proof (dc_map_spec fx kt vt es s kv Hg (unset_raw_key _ _ _ _ _ _ Hu Ek)) as H. cbn [type_of].
+      destruct (gdel (bin_key_is (encode kv)) es) as [es'|]; exact H.
+    - left. cbn [type_of encode]. destruct (good_map_inv _ _ _ Hg) as [Hlen _].
+      rewrite dc_map_unfold, skip_count_ok by (apply zlen_bound; exact Hlen). rewrite (map_key_raw_none _ _ _ _ _ Ek Hu). reflexivity. }
+  all: destruct s as [id|i|ks|n|b]; cbn [remove_at]; try (right; reflexivity); try (left; reflexivity).
   - (* struct, field *)
-    rewrite del_field_gdel. pose proof (dc_struct_spec fs id Hg) as H. cbn [type_of].
+    rewrite del_field_gdel. pose proof (dc_struct_spec fx fs id Hg) as H. cbn [type_of].
     destruct (gdel (fun i => i =? id) fs) as [fs'|]; [|exact H].
     destruct H as [s0 [e0 [H1 H2]]]. exists None, s0, e0. split; [exact H1|]. intros A B. cbn [apply_patch]. apply H2.
-  - (* map, index: ToRaw gives nil *)
-    left. cbn [type_of encode]. destruct (good_map_inv _ _ _ Hg) as [Hlen _].
-    rewrite dc_map_unfold, skip_count_ok by (apply zlen_bound; exact Hlen). reflexivity.
-  - (* map, string key *)
-    destruct (key_of_step kt (PStrKey ks)) as [kv|] eqn:Ek.
-    + rewrite del_key_gdel. pose proof (dc_map_spec kt vt es _ kv Hg (unset_raw_key _ _ _ _ _ Hu Ek)) as H. cbn [type_of].
-      destruct (gdel (bin_key_is (encode kv)) es) as [es'|]; exact H.
-    + left. cbn [type_of encode]. destruct (good_map_inv _ _ _ Hg) as [Hlen _].
-      rewrite dc_map_unfold, skip_count_ok by (apply zlen_bound; exact Hlen). rewrite (to_raw_none _ _ _ _ Ek Hu). reflexivity.
-  - (* map, integer key *)
-    destruct (key_of_step kt (PIntKey n)) as [kv|] eqn:Ek.
-    + rewrite del_key_gdel. pose proof (dc_map_spec kt vt es _ kv Hg (unset_raw_key _ _ _ _ _ Hu Ek)) as H. cbn [type_of].
-      destruct (gdel (bin_key_is (encode kv)) es) as [es'|]; exact H.
-    + left. cbn [type_of encode]. destruct (good_map_inv _ _ _ Hg) as [Hlen _].
-      rewrite dc_map_unfold, skip_count_ok by (apply zlen_bound; exact Hlen). rewrite (to_raw_none _ _ _ _ Ek Hu). reflexivity.
-  - (* map, raw key *)
-    destruct (key_of_step kt (PBinKey b)) as [kv|] eqn:Ek.
-    + rewrite del_key_gdel. pose proof (dc_map_spec kt vt es _ kv Hg (unset_raw_key _ _ _ _ _ Hu Ek)) as H. cbn [type_of].
-      destruct (gdel (bin_key_is (encode kv)) es) as [es'|]; exact H.
-    + left. cbn [type_of encode]. destruct (good_map_inv _ _ _ Hg) as [Hlen _].
-      rewrite dc_map_unfold, skip_count_ok by (apply zlen_bound; exact Hlen). rewrite (to_raw_none _ _ _ _ Ek Hu). reflexivity.
   - (* set, index *)
     destruct (good_set_inv _ _ Hg) as [Hlen HF]. cbn [type_of]. rewrite dc_set.
     pose proof (dc_elems_spec et es i (VSet et) ltac:(reflexivity) Hlen HF) as H.
@@ -729,10 +781,10 @@ Qed.
 (* ================= UNSET: ast_unset seen from the parent of the addressed element ================= *)
 (* the spec walks to the parent (all steps but the last) and removes the child there; everything around the parent's
    encoding stays as it is *)
-Lemma unset_spec : forall p v off, good v -> unset_dom p v = true ->
+Lemma unset_spec fx : forall p v off, good v -> unset_dom fx p v = true ->
   exists pre ls, split_last p = Some (pre, ls) /\
   match lookup v off pre with
-  | LFound c o => unset_last_ok ls c = true /\ good c /\ exists A B, o = off + zlen A /\ encode v = A ++ encode c ++ B /\
+  | LFound c o => unset_last_ok fx ls c = true /\ good c /\ exists A B, o = off + zlen A /\ encode v = A ++ encode c ++ B /\
       match remove_at ls c with
       | DOk c' r => exists v', ast_unset p v = DOk v' r /\ encode v' = A ++ encode c' ++ B
       | DErr => ast_unset p v = DErr
@@ -749,7 +801,7 @@ Proof.
     split; [lia|]. split; [reflexivity|]. rewrite ast_unset_single.
     destruct (remove_at s v) as [c' r|]; [|reflexivity]. exists c'. rewrite app_nil_r. split; reflexivity.
   - (* inner step *)
-    change (unset_dom (s :: t :: p) v) with (match lookup1 v s with LFound c _ => unset_dom (t :: p) c | _ => true end) in Hd.
+    change (unset_dom fx (s :: t :: p) v) with (match lookup1 v s with LFound c _ => unset_dom fx (t :: p) c | _ => true end) in Hd.
     pose proof (ast_unset_cons2 s t p v) as HU. pose proof (descend_spec (unset_k (t :: p)) s v) as HD.
     destruct (descend (unset_k (t :: p)) s v) as [| |v1 r1].
     + (* absent *)
@@ -802,21 +854,21 @@ Proof.
 Qed.
 
 (* ================= unset_refines ================= *)
-Theorem unset_refines : forall p v,
-  wf v = true -> (depth v <= max_skip_depth)%nat -> unset_dom p v = true ->
+Theorem unset_refines : forall fx p v,
+  wf v = true -> (depth v <= max_skip_depth)%nat -> unset_dom fx p v = true ->
   match ast_unset p v with
-  | DOk v' true => unset_by_path (type_of v) (encode v) p = UbOk (encode v')
-  | DOk v' false => unset_by_path (type_of v) (encode v) p = UbOk (encode v) \/ unset_by_path (type_of v) (encode v) p = UbNotFound
-  | DErr => unset_by_path (type_of v) (encode v) p = UbErr (encode v) \/ unset_by_path (type_of v) (encode v) p = UbOk (encode v)
+  | DOk v' true => unset_by_path fx (type_of v) (encode v) p = UbOk (encode v')
+  | DOk v' false => unset_by_path fx (type_of v) (encode v) p = UbOk (encode v) \/ unset_by_path fx (type_of v) (encode v) p = UbNotFound
+  | DErr => unset_by_path fx (type_of v) (encode v) p = UbErr (encode v) \/ unset_by_path fx (type_of v) (encode v) p = UbOk (encode v)
   end.
 Proof.
-  intros p v Hw Hdp Hd. assert (Hg : good v) by (split; assumption).
-  destruct (unset_spec p v 0 Hg Hd) as [pre [ls [Esl H]]].
+  intros fx p v Hw Hdp Hd. assert (Hg : good v) by (split; assumption).
+  destruct (unset_spec fx p v 0 Hg Hd) as [pre [ls [Esl H]]].
   unfold unset_by_path. rewrite Esl. rewrite (parent_refines pre v Hw Hdp).
   destruct (lookup v 0 pre) as [c o| |]; cbn [gres_of_lres].
   - destruct H as [Hlu [Hgc [A [B [Ho [E Hr]]]]]].
     assert (Hs : bfirstn (o + zlen (encode c) - o) (bskipn o (encode v)) = encode c) by (rewrite E; apply slice_mid; lia).
-    rewrite Hs. pose proof (delete_child_spec ls c Hgc Hlu) as HD.
+    rewrite Hs. pose proof (delete_child_spec fx ls c Hgc Hlu) as HD.
     assert (Hoz : o = zlen A) by lia. clear Ho. subst o.
     destruct (remove_at ls c) as [c' [|]|].
     + destruct HD as [patch [s0 [e0 [Hdc Hrep]]]]. rewrite Hdc. destruct Hr as [v' [Hv' Ev']]. rewrite Hv'.
@@ -830,10 +882,10 @@ Proof.
 Qed.
 
 (* whatever the outcome, the buffer afterwards is the encoding of the spec's next state *)
-Corollary unset_refines_bytes p v : wf v = true -> (depth v <= max_skip_depth)%nat -> unset_dom p v = true ->
-  ub_bytes (encode v) (unset_by_path (type_of v) (encode v) p) = encode (ast_step true v (OUnset p)).
+Corollary unset_refines_bytes fx p v : wf v = true -> (depth v <= max_skip_depth)%nat -> unset_dom fx p v = true ->
+  ub_bytes (encode v) (unset_by_path fx (type_of v) (encode v) p) = encode (ast_step true v (OUnset p)).
 Proof.
-  intros Hw Hdp Hd. pose proof (unset_refines p v Hw Hdp Hd) as H. cbn [ast_step].
+  intros Hw Hdp Hd. pose proof (unset_refines fx p v Hw Hdp Hd) as H. cbn [ast_step].
   destruct (ast_unset p v) as [v' [|]|] eqn:Eu.
   - rewrite H. reflexivity.
   - rewrite (ast_unset_absent_id _ _ _ Eu). destruct H as [H|H]; rewrite H; reflexivity.
@@ -848,12 +900,12 @@ Proof.
   - destruct (ast_unset p v) as [v' r|] eqn:E; [eapply ast_unset_type; exact E|reflexivity].
 Qed.
 
-Lemma unset_dom_nonempty p v : unset_dom p v = true -> p <> [].
+Lemma unset_dom_nonempty fx p v : unset_dom fx p v = true -> p <> [].
 Proof. destruct p; [discriminate|discriminate]. Qed.
 
 (* one step: the byte-level operation on the encoding of v yields the encoding of the spec's next state *)
-Theorem bytes_step_refines v o : wf v = true -> op_dom v o = true ->
-  bytes_step (type_of v, encode v) o = (type_of (ast_step true v o), encode (ast_step true v o)).
+Theorem bytes_step_refines fx v o : wf v = true -> op_dom fx v o = true ->
+  bytes_step fx (type_of v, encode v) o = (type_of (ast_step true v o), encode (ast_step true v o)).
 Proof.
   intros Hw Hd. rewrite ast_step_type. unfold op_dom in Hd. apply andb_true_iff in Hd. destruct Hd as [Hdp Hd].
   apply Nat.leb_le in Hdp. destruct o as [p x|p].
@@ -862,12 +914,12 @@ Proof.
     rewrite (set_refines (s :: p') x v Hw Hdp ltac:(discriminate) Hsd).
     destruct (ast_set true (s :: p') x v) as [[v' ex]|]; reflexivity.
   - destruct p as [|s p']; [discriminate Hd|]. cbn [bytes_step].
-    rewrite (unset_refines_bytes (s :: p') v Hw Hdp Hd). reflexivity.
+    rewrite (unset_refines_bytes fx (s :: p') v Hw Hdp Hd). reflexivity.
 Qed.
 
-Theorem history_refines : forall ops v, wf v = true -> history_ok true v ops = true -> history_dom v ops = true ->
-  bytes_states (type_of v, encode v) ops = map (fun s => (type_of s, encode s)) (ast_states true v ops) /\
-  fold_left bytes_step ops (type_of v, encode v) =
+Theorem history_refines fx : forall ops v, wf v = true -> history_ok true v ops = true -> history_dom fx v ops = true ->
+  bytes_states fx (type_of v, encode v) ops = map (fun s => (type_of s, encode s)) (ast_states true v ops) /\
+  fold_left (bytes_step fx) ops (type_of v, encode v) =
     (type_of (fold_left (ast_step true) ops v), encode (fold_left (ast_step true) ops v)).
 Proof.
   induction ops as [|o ops IH]; intros v Hw Hok Hd; [split; reflexivity|].
@@ -875,33 +927,33 @@ Proof.
   cbn [history_dom] in Hd. apply andb_true_iff in Hd. destruct Hd as [Hdo Hd].
   pose proof (ast_step_wf true v o Hw Hc) as Hw'.
   destruct (IH (ast_step true v o) Hw' Hok Hd) as [IH1 IH2].
-  cbn [bytes_states ast_states map fold_left]. cbv zeta. rewrite (bytes_step_refines v o Hw Hdo).
+  cbn [bytes_states ast_states map fold_left]. cbv zeta. rewrite (bytes_step_refines fx v o Hw Hdo).
   split; [f_equal; exact IH1|exact IH2].
 Qed.
 
 (* ================= failed operations ================= *)
 (* the byte-level set fails exactly when the spec fails; a byte-level unset that reports an error (other than
    not-found) left the buffer as it was, and so did one that reports not-found *)
-Theorem failed_op_bytes_unchanged v : wf v = true -> (depth v <= max_skip_depth)%nat ->
+Theorem failed_op_bytes_unchanged fx v : wf v = true -> (depth v <= max_skip_depth)%nat ->
   (forall p x, p <> [] -> set_dom p v = true ->
      (set_by_path (type_of v) (encode v) p (encode x) (type_of x) = None <-> ast_set true p x v = None)) /\
-  (forall p, unset_dom p v = true ->
-     (forall b, unset_by_path (type_of v) (encode v) p = UbErr b -> b = encode v /\ ast_unset p v = DErr) /\
-     (unset_by_path (type_of v) (encode v) p = UbNotFound -> ast_unset p v = DOk v false)) /\
-  (forall o, op_dom v o = true ->
+  (forall p, unset_dom fx p v = true ->
+     (forall b, unset_by_path fx (type_of v) (encode v) p = UbErr b -> b = encode v /\ ast_unset p v = DErr) /\
+     (unset_by_path fx (type_of v) (encode v) p = UbNotFound -> ast_unset p v = DOk v false)) /\
+  (forall o, op_dom fx v o = true ->
      match o with OSet p x => ast_set true p x v = None | OUnset p => ast_unset p v = DErr end ->
-     bytes_step (type_of v, encode v) o = (type_of v, encode v)).
+     bytes_step fx (type_of v, encode v) o = (type_of v, encode v)).
 Proof.
   intros Hw Hdp. split; [|split].
   - intros p x Hp Hd. rewrite (set_refines p x v Hw Hdp Hp Hd).
     destruct (ast_set true p x v) as [[v' ex]|]; split; intros H; try discriminate H; reflexivity.
-  - intros p Hd. pose proof (unset_refines p v Hw Hdp Hd) as H.
+  - intros p Hd. pose proof (unset_refines fx p v Hw Hdp Hd) as H.
     destruct (ast_unset p v) as [v' [|]|] eqn:Eu.
     + split; [intros b Hb|intros Hb]; rewrite H in Hb; discriminate Hb.
     + rewrite (ast_unset_absent_id _ _ _ Eu).
       split; [intros b Hb; destruct H as [H|H]; rewrite H in Hb; discriminate Hb|reflexivity].
     + split; [|intros Hb; destruct H as [H|H]; rewrite H in Hb; discriminate Hb].
       intros b Hb. destruct H as [H|H]; rewrite H in Hb; [inversion Hb; split; reflexivity|discriminate Hb].
-  - intros o Hd Hf. rewrite (bytes_step_refines v o Hw Hd).
+  - intros o Hd Hf. rewrite (bytes_step_refines fx v o Hw Hd).
     rewrite (failed_op_unchanged true v o Hf). reflexivity.
 Qed.
